@@ -417,6 +417,28 @@ def fold_entries():
                     def spec(x, f=f):
                         return gen.Ref([]).run(f, [x])
                     E.append(BEntry(nm, [("x", t)], t, body, spec, tags=("fold",)))
+        # overflowing / wrapping / checked / saturating variants with one constant operand (const
+        # folding rewrites some of them into inc/dec helpers); specs are the arith entries' specs
+        # with the constant substituted
+        if t != "felt252":
+            import matrix as _m
+            base = {e.name: e for e in _m.arith_entries()}
+            lo, hi = rng(t)
+            for kind in ("overflowing", "wrapping", "checked", "saturating"):
+                for opn in ("add", "sub", "mul"):
+                    be = base.get(f"{kind}_{opn}_{t}")
+                    if be is None:
+                        continue
+                    for c in dict.fromkeys([0, 1, hi, lo] + ([-1] if lo < 0 else [])):
+                        for pos in ("l", "r"):
+                            lit = f"({c}_{t})" if c >= 0 else f"(-{-c}_{t})"
+                            body = f"x.{kind}_{opn}({lit})" if pos == "r" else f"{lit}.{kind}_{opn}(x)"
+                            nm = f"fold_{t}_{kind}_{opn}_{'m' + str(-c) if c < 0 else c}_{pos}"
+
+                            def spec(x, be=be, c=c, pos=pos):
+                                k = ("int", z3.IntVal(c))
+                                return be.spec(x, k) if pos == "r" else be.spec(k, x)
+                            E.append(BEntry(nm, [("x", t)], be.ret, body, spec, tags=("fold",)))
         # comparisons with a constant and a run-time operand
         if t != "felt252":
             lo, hi = rng(t)
